@@ -1203,6 +1203,9 @@ static void cmd_keys(char **tok, int ntok)
             memset(&sp, 0, sizeof(sp));
             sp.maxEarlyData = opt_int(tok, ntok, "early", 0);
             if (sp.maxEarlyData > 0) sp.cipherId = (psCipher16_t) opt_int(tok, ntok, "pskcipher", 0x1301);  /* needed for early data keys */
+            /* session parameters an application binds to an external PSK: server name and ALPN protocol (copied by the library) */
+            if (opt_get(tok, ntok, "psksni")) { sp.sni = (unsigned char *) opt_get(tok, ntok, "psksni"); sp.sniLen = (psSize_t) strlen((const char *) sp.sni); }
+            if (opt_get(tok, ntok, "pskalpn")) { sp.alpn = (unsigned char *) opt_get(tok, ntok, "pskalpn"); sp.alpnLen = (psSize_t) strlen((const char *) sp.alpn); }
             memset(pk, 0x60 + k, sizeof(pk));
             memset(pid, 0, sizeof(pid));
             snprintf((char *) pid, sizeof(pid), "mxpsk13-%d", k);
